@@ -35,6 +35,27 @@ func checkC34(c *Ctx, r *Report) {
 		return
 	}
 	const fBody = pkgHTTP + ".sendOptions.body"
+	// the unexported helpers are found by what they are: the request constructor is
+	// the function of the package, called by Send, that returns a *http.Request; the
+	// retryable-status predicate is the func(int) bool applied to the status code
+	ctorName := pkgHTTP + ".newRequest"
+	for _, cs := range callsIn(send) {
+		h := cs.Instr.Common().StaticCallee()
+		if h == nil || h.Pkg != send.Pkg || h.Signature.Results().Len() == 0 {
+			continue
+		}
+		if h.Signature.Results().At(0).Type().String() == "*net/http.Request" {
+			ctorName = funcName(h)
+		}
+	}
+	isStatusPredicate := func(cl *ssa.Call) bool {
+		h := cl.Common().StaticCallee()
+		if h == nil || h.Pkg != send.Pkg || h.Signature.Params().Len() != 1 || h.Signature.Results().Len() != 1 {
+			return false
+		}
+		return h.Signature.Params().At(0).Type().String() == "int" && h.Signature.Results().At(0).Type().String() == "bool" &&
+			mentionsField(cl.Call.Args[0], "net/http.Response.StatusCode")
+	}
 	for _, do := range dos {
 		// enumerate cyclic paths: from the Do block back to itself
 		n, bad := 0, 0
@@ -53,7 +74,7 @@ func checkC34(c *Ctx, r *Report) {
 					if cn == "(io.Seeker).Seek" && mentionsField(ci.Common().Value, fBody) && seeksToRecordedStart(ci, fBody) {
 						seek = true
 					}
-					if cn == pkgHTTP+".newRequest" {
+					if cn == ctorName {
 						rebuilt = true
 					}
 				}
@@ -83,6 +104,40 @@ func checkC34(c *Ctx, r *Report) {
 					}
 				}
 			})
+			if !ok {
+				// the same decided once and kept in a boolean (`needsRewind := body != nil
+				// && req.GetBody == nil`): the edge on which that boolean has the value
+				// every way of producing which means "no body or GetBody present"
+				exempt := func(cond ssa.Value, val bool) bool {
+					b, isB := cond.(*ssa.BinOp)
+					if !isB || (b.Op != token.EQL && b.Op != token.NEQ) || !isNilConst(b.Y) {
+						return false
+					}
+					switch {
+					case isPureLoadOf(b.X, fBody):
+						return (b.Op == token.EQL) == val
+					case isPureLoadOf(b.X, "net/http.Request.GetBody"):
+						return (b.Op == token.NEQ) == val
+					}
+					return false
+				}
+				instrsOf(send, func(in ssa.Instruction) {
+					phi, isPhi := in.(*ssa.Phi)
+					if !isPhi || phi.Type().String() != "bool" {
+						return
+					}
+					for _, val := range []bool{true, false} {
+						if !phiAll(phi, val, exempt) {
+							continue
+						}
+						for _, e := range condEdges(phi, val) {
+							if p.hasEdge(e) {
+								ok = true
+							}
+						}
+					}
+				})
+			}
 			return ok
 		}
 		walk = func(b *ssa.BasicBlock, path []*ssa.BasicBlock, seen map[*ssa.BasicBlock]bool) {
@@ -138,7 +193,7 @@ func checkC34(c *Ctx, r *Report) {
 	// in Send, or in the retry predicate it was extracted into
 	instrsDeep(send, 1, func(_ *ssa.Function, in ssa.Instruction) {
 		cl, isC := in.(*ssa.Call)
-		if !isC || calleeName(cl.Common()) != pkgHTTP+".isRetryable" {
+		if !isC || !isStatusPredicate(cl) {
 			return
 		}
 		// on the true edge of isRetryable the next test must be acceptedCodes[...]
@@ -172,7 +227,7 @@ func checkC34(c *Ctx, r *Report) {
 	r.Check(okRet, r2, send, "success only for accepted codes", nil, "guarded by acceptedCodes[status]", "a response with a code that is not accepted is returned as success")
 
 	r3 := r.Rule("R3", "flow", "every request sent by Send/fallback is built by newRequest(method, opts) with the function's own method and options", 2)
-	for _, cs := range c.CallsTo(pkgHTTP + ".newRequest") {
+	for _, cs := range c.CallsTo(ctorName) {
 		fn := cs.Caller
 		if c.isFixture(fn) {
 			continue
@@ -352,15 +407,18 @@ func wrapperCounts(c *Ctx, wrapper *ssa.Alloc) bool {
 		return false
 	}
 	ok := false
-	instrsOf(w, func(in ssa.Instruction) {
-		if st, isSt := in.(*ssa.Store); isSt {
-			if fa, isFA := st.Addr.(*ssa.FieldAddr); isFA && typeName(fa.X.Type()) == tn {
-				if b, isB := st.Val.(*ssa.BinOp); isB && b.Op == token.ADD {
-					ok = true
+	// in Write itself or in a function literal it defers (named results read after the return)
+	for _, g := range append([]*ssa.Function{w}, w.AnonFuncs...) {
+		instrsOf(g, func(in ssa.Instruction) {
+			if st, isSt := in.(*ssa.Store); isSt {
+				if fa, isFA := st.Addr.(*ssa.FieldAddr); isFA && typeName(fa.X.Type()) == tn {
+					if b, isB := st.Val.(*ssa.BinOp); isB && b.Op == token.ADD {
+						ok = true
+					}
 				}
 			}
-		}
-	})
+		})
+	}
 	return ok
 }
 
